@@ -4,7 +4,7 @@
    Quantified over: both configuration modes, the three statement kinds, every statement/profile/session option
    value, every timeout argument, every protocol version (only hypothesis: a batch needs protocol >= 2, as the
    driver raises UnsupportedOperation otherwise). *)
-From Coq Require Import ZArith List Bool.
+From Coq Require Import ZArith List Bool Lia.
 From Verif Require Import Options C46_proofs.
 Import ListNotations.
 Local Open Scope Z_scope.
@@ -87,6 +87,33 @@ Proof.
   - intros ->. destruct (effective_fetch _ _ _ _ _ _ _ _ _ H H0) as [F _]. rewrite F. destruct (s_fetch st); reflexivity.
 Qed.
 Print Assumptions C46_message_carries.
+
+(* the encoder rejects a request only when the protocol version cannot carry an option in effect (never silently
+   dropping it); from protocol v3 on every request built here is encodable *)
+Theorem C46_rejected_only_if_uncarriable : forall k f pv, encodes k f pv = false ->
+  pv < 3 /\ ((k = Batch /\ (m_serial f <> None \/ m_ts f <> None \/ m_keyspace f <> None))
+             \/ (k <> Batch /\ pv < 2 /\ (m_serial f <> None \/ m_fetch f <> None \/ m_paging f <> None))).
+Proof.
+  intros k f pv H. unfold encodes in H.
+  assert (T : forall o, truthy o = true -> o <> None) by (intros [v|] E; [discriminate | discriminate E]).
+  assert (S : forall o, is_some o = true -> o <> None) by (intros [v|] E; [discriminate | discriminate E]).
+  destruct k.
+  - destruct (pv <? 2) eqn:E; [|discriminate]. apply Z.ltb_lt in E. apply negb_false_iff in H. rewrite !orb_true_iff in H.
+    split; [lia|]. right. split; [discriminate|]. split; [exact E|]. destruct H as [[H|H]|H]; auto.
+  - destruct (pv <? 2) eqn:E; [|discriminate]. apply Z.ltb_lt in E. apply negb_false_iff in H. rewrite !orb_true_iff in H.
+    split; [lia|]. right. split; [discriminate|]. split; [exact E|]. destruct H as [[H|H]|H]; auto.
+  - destruct (pv <? 3) eqn:E; [|discriminate]. apply Z.ltb_lt in E. apply negb_false_iff in H. rewrite !orb_true_iff in H.
+    split; [lia|]. left. split; [reflexivity|]. destruct H as [[H|H]|H]; auto.
+Qed.
+Print Assumptions C46_rejected_only_if_uncarriable.
+
+Theorem C46_v3_always_encodes : forall k f pv, 3 <= pv -> encodes k f pv = true.
+Proof.
+  intros k f pv H. unfold encodes.
+  destruct k; [destruct (pv <? 2) eqn:E | destruct (pv <? 2) eqn:E | destruct (pv <? 3) eqn:E]; try reflexivity;
+    apply Z.ltb_lt in E; lia.
+Qed.
+Print Assumptions C46_v3_always_encodes.
 
 Example C46_nonvacuous :
   let st := mkStmt (Some 6) None None (FSet (Some 50)) (Some 9) true in
